@@ -33,7 +33,8 @@ META = dict(
          "load that succeeds must give a key that signs and whose signature verifies under its own public "
          "encoding (paramiko public object and an independent verifier). Holds for the executions produced only.",
     note="bcrypt.kdf is wrapped: cases asking for more than 64 rounds are skipped and counted (a mutated rounds "
-         "field would run for hours); results are memoised. from_private_key gets a StringIO, so it is only fed "
+         "field would run for hours); results are memoised. util.inflate_long is wrapped the same way: an mpint "
+         "declared longer than 32 KiB (zero-padded by Message, quadratic, minutes per call) is skipped and counted. from_private_key gets a StringIO, so it is only fed "
          "text that decodes as UTF-8 (the decoding of a caller-supplied file object is the caller's business).",
     rule="case = (seed file, mutation class, key class, loader, passphrase class); distinct = hash of that tuple plus "
          "the mutated bytes; trivial = mutation that left the bytes unchanged",
@@ -535,6 +536,9 @@ def load_case(ctx, tmpdir, data, clsname, loader, password, desc):
     except SkipCase:
         ctx.count("skipped_bcrypt_rounds_over_64")
         return "skipped"
+    except ko.SkipSlow:
+        ctx.count("skipped_mpint_over_32KiB")
+        return "skipped"
     except SSHException as e:
         ctx.count("raised_SSHException")
         if isinstance(e, paramiko.PasswordRequiredException):
@@ -566,6 +570,7 @@ def run(ctx):
     if ctx.guard(ko.selfcheck) is None:
         return
     install_guard()
+    ko.install_inflate_guard()
     rng = ctx.rng
     tmpdir = tempfile.mkdtemp(prefix="vf-c37-")
     try:
